@@ -21,6 +21,11 @@ def _child(prop, indices, hashseed, pad, workers):
     env.pop("STATHAM_VERIF_CHILD", None)
     env["STATHAM_VERIF_HASHSEED"] = str(hashseed)
     env["STATHAM_VERIF_PAD"] = "z" * pad
+    # the runs themselves execute in forks of the zygote: vary *its* hash
+    # seed and environment size as well
+    env["STATHAM_VERIF_ZYG_HASHSEED"] = str(hashseed)
+    if pad:
+        env["STATHAM_VERIF_ZYG_PAD"] = "z" * pad
     env["VERIF_WORKERS"] = str(workers)
     proc = subprocess.run(
         [
